@@ -1,8 +1,13 @@
 (* The External Term Format as a relation between Erlang values and byte strings (erl_ext_dist): every form a
    conforming peer may use for a value — minimal or not, modern or legacy.  Not covered by this relation: maps (the
-   decoder's key order merges keys: recorded findings C03-map-numeric-keys and C03-map-list-improper-keys), compressed terms, the textual FLOAT_EXT, NEW_FUN_EXT,
+   decoder's key order merges keys: recorded findings C03-map-numeric-keys and C03-map-list-improper-keys), compressed terms, the textual FLOAT_EXT,
    and the two context-dependent tags (LOCAL_EXT, ATOM_CACHE_REF), which have their own theorems.  Definitions only. *)
 From EDP Require Import Base.Bytes Term.Term Term.Value Gen.Limits Codec.Decode.
+
+(* OldIndex / OldUniq of NEW_FUN_EXT: SMALL_INTEGER_EXT or a non-negative INTEGER_EXT *)
+Inductive int_form : N -> bytes -> Prop :=
+| IF_small n : n < 256 -> int_form n [97; n]
+| IF_integer n : n < 2147483648 -> int_form n (98 :: be 4 n).
 
 Inductive encodes : value -> bytes -> Prop :=
 (* integers: SMALL_INTEGER_EXT, INTEGER_EXT (any 32-bit value, small ones included), SMALL_BIG_EXT / LARGE_BIG_EXT with
@@ -52,6 +57,13 @@ Inductive encodes : value -> bytes -> Prop :=
 (* EXPORT_EXT: module and function in any atom form, the arity as a small integer *)
 | E_export m bm fn bf a : encodes (VAtom m) bm -> encodes (VAtom fn) bf -> a < 256 ->
     encodes (VExtFun m fn a) (113 :: bm ++ bf ++ [97; a])
+(* NEW_FUN_EXT: any Size field (the reader does not rely on it), the module in any atom form, OldIndex and OldUniq in
+   either integer form, the pid in either layout, the free variables in any forms *)
+| E_new_fun size ar uniq idx m bm oi boi ou bou node id ser cr bp frees bfr :
+    size < 4294967296 -> ar < 256 -> len uniq = 16 -> idx < 4294967296 -> len frees < 4294967296 ->
+    encodes (VAtom m) bm -> int_form oi boi -> int_form ou bou -> encodes (VPid node id ser cr) bp -> encodes_seq frees bfr ->
+    encodes (VIntFun ar uniq idx (len frees) m oi ou (VPid node id ser cr) frees)
+            (112 :: be 4 size ++ ar :: uniq ++ be 4 idx ++ be 4 (len frees) ++ bm ++ boi ++ bou ++ bp ++ bfr)
 with encodes_seq : list value -> bytes -> Prop :=
 | ES_nil : encodes_seq [] []
 | ES_cons v b vs bs : encodes v b -> encodes_seq vs bs -> encodes_seq (v :: vs) (b ++ bs).
